@@ -188,6 +188,109 @@ func readerLiesWarm(rs syncer.ReadSyncer, root node.Root, truth kv.Contents, nod
 	return ""
 }
 
+// readerSessionLies: one reader used for a whole session.  Every sequence of up to `depth` reads (a Get
+// of a probe key, or an iteration from a seek position with or without prefetch) is run on a single
+// remote-backed tree with a small node cache; a read may fail (cache too small), but every answer
+// obtained without an error must be the truth whatever reads, failed or not, came before it.
+type c04read struct {
+	Get      []byte
+	Iter     bool
+	Seek     []byte
+	Prefetch uint16
+}
+
+func (o c04read) String() string {
+	if !o.Iter {
+		return fmt.Sprintf("Get(%x)", o.Get)
+	}
+	return fmt.Sprintf("Iterate(from=%x,prefetch=%d)", o.Seek, o.Prefetch)
+}
+
+func c04Reads() []c04read {
+	var ops []c04read
+	for _, k := range c04Probes {
+		ops = append(ops, c04read{Get: k})
+	}
+	for _, pf := range []uint16{0, 3} {
+		for _, seek := range [][]byte{nil, {0x00, 0x00}, {0x80}} {
+			ops = append(ops, c04read{Iter: true, Seek: seek, Prefetch: pf})
+		}
+	}
+	return ops
+}
+
+func readerSessionLies(rs syncer.ReadSyncer, root node.Root, truth kv.Contents, nodeCap uint64, depth int) (lie string, sessions int64) {
+	var cur []c04read
+	defer func() {
+		if p := recover(); p != nil {
+			lie = fmt.Sprintf("panic in remote-backed reader during session %v: %v", cur, p)
+		}
+	}()
+	ops := c04Reads()
+	do := func(rd mkvs.Tree, o c04read) string {
+		if !o.Iter {
+			v, err := rd.Get(kv.Ctx, o.Get)
+			if err != nil {
+				return ""
+			}
+			want, present := truth[string(o.Get)]
+			if !valEq(v, want, present) {
+				return fmt.Sprintf("Get(%x) = %q (nil=%v) but the tree holds %q (present=%v)", o.Get, v, v == nil, want, present)
+			}
+			return ""
+		}
+		it := rd.NewIterator(kv.Ctx, mkvs.IteratorPrefetch(o.Prefetch))
+		defer it.Close()
+		if o.Seek == nil {
+			it.Rewind()
+		} else {
+			it.Seek(o.Seek)
+		}
+		want := sortedFrom(truth, o.Seek)
+		i := 0
+		for ; it.Valid(); it.Next() {
+			if i >= len(want) || string(it.Key()) != want[i] || !bytes.Equal(it.Value(), truth[want[i]]) {
+				return fmt.Sprintf("%s yields %x=%q at position %d contrary to the tree", o, it.Key(), it.Value(), i)
+			}
+			i++
+		}
+		if it.Err() == nil && i != len(want) {
+			return fmt.Sprintf("%s ended without error after %d items, the tree has %d", o, i, len(want))
+		}
+		return ""
+	}
+	idx := make([]int, depth)
+	for {
+		rd := mkvs.NewWithRoot(rs, nil, root, mkvs.Capacity(nodeCap, 0))
+		cur = cur[:0]
+		sessions++
+		for _, k := range idx {
+			cur = append(cur, ops[k])
+			if w := do(rd, ops[k]); w != "" {
+				rd.Close()
+				var before []string
+				for _, o := range cur[:len(cur)-1] {
+					before = append(before, o.String())
+				}
+				return fmt.Sprintf("one reader, after [%s]: %s", strings.Join(before, " "), w), sessions
+			}
+		}
+		rd.Close()
+		k := depth - 1
+		for k >= 0 {
+			idx[k]++
+			if idx[k] < len(ops) {
+				break
+			}
+			idx[k] = 0
+			k--
+		}
+		if k < 0 {
+			return "", sessions
+		}
+	}
+}
+
 // subtreeClaim walks a verified subtree (as returned by VerifyProof) with an
 // independent lookup and reports what it claims about key: a value, absence,
 // or unknown (an unresolved hash pointer).
@@ -275,7 +378,10 @@ type c04Artefact struct {
 	Other    kv.Contents   `json:"other_tree,omitempty"`
 	Tape     []int         `json:"tape,omitempty"`
 	NodeCap  uint64        `json:"node_cap,omitempty"`
+	Depth    int           `json:"depth,omitempty"`
 }
+
+var c04SessionDepth = 2
 
 func hashEntry(h hash.Hash) []byte { return append([]byte{0x02}, h[:]...) }
 
@@ -636,7 +742,7 @@ func c04MakeTree(ndb dbapi.NodeDB, c kv.Contents) (*c04tree, error) {
 // proofs from neighbouring trees used for splicing.
 func c04CheckTree(r *ev.Run, tr *c04tree, neighbours []*c04tree, reqs []c04req, bitLevel bool) {
 	var pv syncer.ProofVerifier
-	var evals, mutants, accepted, prefixChecks int64
+	var evals, mutants, accepted, prefixChecks, sessions int64
 	// An honest peer (the tree itself) read through small node caches: gets, iteration from several
 	// seek positions.  A cache that is too small may make a read fail, never lie.
 	for _, nc := range []uint64{1, 2, 3} {
@@ -647,6 +753,13 @@ func c04CheckTree(r *ev.Run, tr *c04tree, neighbours []*c04tree, reqs []c04req, 
 		}
 		if lie != "" {
 			r.Violate(ev.Violation{Engine: "kvmc", Key: fmt.Sprintf("c04 small-cache %s cap=%d", tr.c, nc), What: fmt.Sprintf("tree %s read from an honest peer through a node cache of %d: %s", tr.c, nc, lie), Artefact: c04Artefact{Contents: tr.c, NodeCap: nc, Mutation: "small-cache"}})
+		}
+	}
+	for _, nc := range []uint64{1, 2, 3, 4} {
+		lie, n := readerSessionLies(tr.t, tr.root, tr.c, nc, c04SessionDepth)
+		sessions += n
+		if lie != "" {
+			r.Violate(ev.Violation{Engine: "kvmc", Key: fmt.Sprintf("c04 reader-session %s cap=%d", tr.c, nc), What: fmt.Sprintf("tree %s read from an honest peer through a node cache of %d: %s", tr.c, nc, lie), Artefact: c04Artefact{Contents: tr.c, NodeCap: nc, Mutation: "reader-session", Depth: c04SessionDepth}})
 		}
 	}
 	// splice universe: all distinct entries of the get-proofs of the neighbours and of this tree
@@ -761,6 +874,8 @@ func c04CheckTree(r *ev.Run, tr *c04tree, neighbours []*c04tree, reqs []c04req, 
 	r.Add("transitions", evals+mutants)
 	r.Add("honest_proofs", evals)
 	r.Add("prefix_fetch_completeness_checks", prefixChecks)
+	r.Add("reader_sessions", sessions)
+	r.Add("transitions", sessions)
 	r.Add("mutants", mutants)
 	r.Add("mutants_accepted_and_read_back", accepted)
 }
@@ -776,6 +891,9 @@ func runC04(r *ev.Run) {
 		return
 	}
 	total := kv.Pow(len(vals), len(keys))
+	if r.Thorough() {
+		c04SessionDepth = 3
+	}
 	reqs := c04Requests(r.Thorough())
 	// One database per worker shard; trees of a shard + their single-key neighbours.
 	nshards := 64
@@ -944,6 +1062,8 @@ func c04Replay(r *ev.Run) {
 		if what = readerLies(tr.t, tr.root, tr.c, a.NodeCap); what == "" {
 			what = readerLiesWarm(tr.t, tr.root, tr.c, a.NodeCap)
 		}
+	case a.Mutation == "reader-session":
+		what, _ = readerSessionLies(tr.t, tr.root, tr.c, a.NodeCap, a.Depth)
 	case a.Mutation == "adversary":
 		ot, _ := c04MakeTree(ndb, a.Other)
 		what, _ = tapeReaderLies(&tapeSyncer{src: tr.t, root: tr.root, other: ot.t, oroot: ot.root, tape: a.Tape}, tr.c, a.NodeCap)
